@@ -179,6 +179,34 @@ def _one(run, ci, nd):
         run.fail('C14-R2', K + '_evaluate|node-sampling', path, (call[0] if call else blk[0]).lineno,
                  'Caching%dD samples the wrapped function at %s over %s; documented: at the grid nodes %s' % (
                      nd, [norm(a) for a in call[0].args] if call else None, [lv[2] for lv in loopvars], want_args))
+    # every empty node of the stencil is sampled: inside the sampling loops nothing but the node's own emptiness decides whether it is sampled
+    if call and len(loopvars) == nd:
+        run.subject('C14-R2')
+        from ..flow import guards_of as _guards_of
+        own = 'isnan(self.data_view[%s])' % ', '.join(lv[1] for lv in loopvars)
+        first_loop = min(lv[0] for lv in loopvars)
+        lnames = {lv[1] for lv in loopvars}
+        foreign, unknown = [], []
+        for g in (_guards_of(fn, call[0]) or []):
+            t, pol = g
+            if not isinstance(t, ast.AST) or isinstance(t, ast.For) or getattr(t, 'lineno', 0) < first_loop:
+                continue
+            if not ({n.id for n in ast.walk(t) if isinstance(n, ast.Name)} & lnames):
+                continue
+            if norm(t) == own and pol is True:
+                continue
+            if 'isnan(self.data_view[' in norm(t):
+                foreign.append(t)
+            else:
+                unknown.append(t)
+        if foreign:
+            run.fail('C14-R2', K + '_evaluate|node-skipped', path, foreign[0].lineno,
+                     'Caching%dD decides whether to sample a node from the state of other nodes (%s): a node that is still empty can be '
+                     'skipped, and the cell is then built from missing samples depending on which cells were evaluated before' % (nd, norm(foreign[0])[:90]))
+        elif unknown:
+            run.undecided('C14-R2', 'Caching%dD every empty node sampled' % nd, 'sampling guarded by ' + norm(unknown[0])[:60])
+        else:
+            run.ok('C14-R2', 'Caching%dD every empty node sampled' % nd, 'the only guard inside the sampling loops is ' + own, sample=False)
     run.subject('C14-R2')
     dstore = [s for s in ast.walk(blk[0]) if isinstance(s, ast.Assign) and norm(s.targets[0]).startswith('self.data_view[')]
     # constant term: + data_min, written as an assignment or as an augmented assignment
@@ -522,6 +550,9 @@ def _hermite(run, ci, nd, fn, blk, K, path):
 
 _C1, _C2, _C3 = FILES
 MUTANTS = [
+    dict(name='lines-of-nodes-skipped-by-their-ends', file='cherab/core/math/caching/caching3d.pyx',
+         find="                    for w in range(i_z-1, i_z+3):\n                        if isnan(self.data_view[u, v, w]):",
+         replace="                    if not (isnan(self.data_view[u, v, i_z-1]) or isnan(self.data_view[u, v, i_z+2])):\n                        continue\n                    for w in range(i_z-1, i_z+3):\n                        if isnan(self.data_view[u, v, w]):", expect='C14-R2'),
     dict(name='sample-renormalised-when-cached', file=_C1, find="                if isnan(self.data_view[u]):\n                    value = self.function.evaluate(self.x_domain_view[u])\n                    if not isnan(value):\n                        # data values are normalised here\n                        self.data_view[u] = (value - self.data_min) * self.data_delta_inv",
          replace="                value = self.data_view[u]\n                if isnan(value):\n                    value = self.function.evaluate(self.x_domain_view[u])\n                self.data_view[u] = (value - self.data_min) * self.data_delta_inv", expect='C14-R5'),
     dict(name='single-node-axis', file=_C1, find="max(int((maxx - minx) / deltax) + 1, 2)", replace="int(round((maxx - minx) / deltax)) + 1", expect='C14-R5'),
